@@ -16,8 +16,8 @@ SPEC = dict(
                "plus scalar/one-container documents over the full leaf alphabet and keys needing bracket notation / non-ASCII keys; 5 CLI runs per "
                "(document, offset) through the __verif-batch hook, a slice re-run as real processes, every violation candidate confirmed by a real "
                "spawn. Library documents: "
-               "J(3) full alphabet (keys needing bracket notation, empty, escaped, non-ASCII keys) x all whitespace placements, J(4) reduced, J(5) tiny, "
-               "plus deep/wide families. Numbers are compared numerically (exactly known doubles / i64).",
+               "J(3) full alphabet (keys needing bracket notation, empty, escaped, non-ASCII keys) x 6 uniform whitespace patterns, J(3) reduced x every "
+               "single-gap placement, J(4) reduced x 6 patterns (quick: 1), J(5) tiny (thorough), plus deep/wide families. Numbers are compared numerically (exactly known doubles / i64).",
     assumptions=["documents with duplicate keys are outside the statement and skipped (counted in the evidence)",
                  "the CLI slice is smaller than the library space (process-free batching still costs ~30 us per run)"],
 )
